@@ -28,7 +28,14 @@ type Suite struct {
 	BeforeAll  []vm.Closure
 	AfterAll   []vm.Closure
 	FullMatch  bool
-	caseCount  int
+	// filters that fully match this suite or one of its ancestors,
+	// every case of the suite satisfies them
+	fullMatchFilters []Filter
+	caseCount        int
+}
+
+func (s *Suite) isFullyMatchedBy(filter Filter) bool {
+	return slices.Contains(s.fullMatchFilters, filter)
 }
 
 func (s *Suite) countCases() int {
@@ -87,6 +94,7 @@ func NewSuite(name string, parent *Suite, loc *position.Location) *Suite {
 func (s *Suite) NewSubSuite(name string, loc *position.Location) *Suite {
 	subSuite := NewSuite(name, s, loc)
 	subSuite.FullMatch = s.FullMatch
+	subSuite.fullMatchFilters = slices.Clone(s.fullMatchFilters)
 	return subSuite
 }
 
